@@ -14,17 +14,18 @@ import (
 
 // Case is one input of one of the three generator families.
 type Case struct {
-	Family string    `json:"family"` // http | token | client | session
+	Family string    `json:"family"` // http | token | client | session | overlap
 	HTTP   *HTTPCase `json:"http,omitempty"`
 	Tok    *TokCase  `json:"tok,omitempty"`
 	Cli    *CliCase  `json:"cli,omitempty"`
 	Seq    *SeqCase  `json:"seq,omitempty"`
+	Ov     *OvCase   `json:"ov,omitempty"`
 }
 
 func genCase(t *rapid.T) Case {
-	// 8 : 7 : 5 : 4 (the first three families keep their absolute share of the budget: the sizes in check.json grew by 20 % with the fourth)
+	// 8 : 7 : 5 : 4 : 2 (the earlier families keep their absolute share of the budget: the sizes in check.json grew with the fourth and the fifth)
 	switch rapid.SampledFrom([]string{"http", "token", "client", "http", "token", "client", "http", "token", "http", "client", "token", "http", "token", "client", "http", "token", "http", "client", "token", "http",
-		"session", "session", "session", "session"}).Draw(t, "family") {
+		"session", "session", "session", "session", "overlap", "overlap"}).Draw(t, "family") {
 	case "http":
 		h := genHTTPCase(t)
 		return Case{Family: "http", HTTP: &h}
@@ -34,6 +35,9 @@ func genCase(t *rapid.T) Case {
 	case "session":
 		s := genSeqCase(t)
 		return Case{Family: "session", Seq: &s}
+	case "overlap":
+		o := genOvCase(t)
+		return Case{Family: "overlap", Ov: &o}
 	default:
 		c := genCliCase(t)
 		return Case{Family: "client", Cli: &c}
@@ -53,6 +57,8 @@ func run(c Case) *vkit.Result {
 		runCli(*c.Cli, res, h)
 	case c.Family == "session" && c.Seq != nil:
 		runSeq(*c.Seq, res, h)
+	case c.Family == "overlap" && c.Ov != nil:
+		runOv(*c.Ov, res, h)
 	default:
 		res.Grey = true
 		res.Label("malformed-case")
@@ -62,11 +68,12 @@ func run(c Case) *vkit.Result {
 
 var prop = vkit.Prop[Case]{
 	ID: "C09",
-	Rule: "four families. http: wire-format request (method x routed path / near-miss x query/form built from a per-grant scenario whose credential-like slots (code, code_verifier, refresh_token, device_code, assertion, subject/actor token, Bearer token, token, id_token_hint, request, callback id, client_assertion) are filled from a catalogue of live material of flows that ran on the same fresh instance: codes of 5 clients x authorization request without / with S256 / with plain code_challenge, used codes, access / refresh / ID tokens of every client and of the device, implicit and client_credentials flows, revoked / expired / rotated tokens, pending / approved / denied / expired / used device codes, auth request ids, assertions, request objects - mostly the kind that belongs into the slot with the matching client's credentials, otherwise anything of the catalogue (material of flow A in request shape B: verifier without challenge, challenge without verifier, code of another client, refresh token at the code grant, ID token as access token ...); token:cross = any grant_type with the parameters of any other grant; then 0-3 mutations: dropped / duplicated / hostile / raw %zz pairs, parameters of other request shapes, ';' separators, content types, raw bodies, listed and generated (scheme cut at any length x separator x credentials) Authorization headers on every endpoint, Forwarded/Host) parsed by net/http's own ReadRequest and served 1-3 times by one instance of the Provider router, the LegacyServer router or an exported handler function, over a storage that words its own refusals as plain error / *oidc.Error / wrapped *oidc.Error / server_error and that, in every second case, fails once while the request under test is served (single fault: the k-th storage call of the request, k in 1..10, or every call of one storage method, mostly one the scenario uses; kinds error / deadline / partial result with error / *oidc.Error / wrapped *oidc.Error); oracle per served request: no panic, WriteHeader at most once, valid status, one JSON document, no storage call and no token material after the first byte of an error answer. " +
+	Rule: "five families. http: wire-format request (method x routed path / near-miss x query/form built from a per-grant scenario whose credential-like slots (code, code_verifier, refresh_token, device_code, assertion, subject/actor token, Bearer token, token, id_token_hint, request, callback id, client_assertion) are filled from a catalogue of live material of flows that ran on the same fresh instance: codes of 5 clients x authorization request without / with S256 / with plain code_challenge, used codes, access / refresh / ID tokens of every client and of the device, implicit and client_credentials flows, revoked / expired / rotated tokens, pending / approved / denied / expired / used device codes, auth request ids, assertions, request objects - mostly the kind that belongs into the slot with the matching client's credentials, otherwise anything of the catalogue (material of flow A in request shape B: verifier without challenge, challenge without verifier, code of another client, refresh token at the code grant, ID token as access token ...); token:cross = any grant_type with the parameters of any other grant; then 0-3 mutations: dropped / duplicated / hostile / raw %zz pairs, parameters of other request shapes, ';' separators, content types, raw bodies, listed and generated (scheme cut at any length x separator x credentials) Authorization headers on every endpoint, Forwarded/Host) parsed by net/http's own ReadRequest and served 1-3 times by one instance of the Provider router, the LegacyServer router or an exported handler function, over a storage that words its own refusals as plain error / *oidc.Error / wrapped *oidc.Error / server_error and that, in every second case, fails once while the request under test is served (single fault: the k-th storage call of the request, k in 1..10, or every call of one storage method, mostly one the scenario uses; kinds error / deadline / partial result with error / *oidc.Error / wrapped *oidc.Error; one fault in three is worded by the storage itself: an *oidc.Error with ANY error code - a library constant, a registered OAuth code the library has no constant for (temporarily_unavailable, invalid_token ...), the empty code, long / non-ASCII / quoted / CR-LF / arbitrary generated strings -, with / without description, parent (plain, an *oidc.Error, returned to the client or not) and the redirect-disabled flag, returned as it is, wrapped with %w or joined); oracle per served request: no panic, WriteHeader at most once and only with a code net/http accepts (the recording writer refuses codes outside 100..999 as net/http's writers do), valid status, one JSON document, no storage call and no token material after the first byte of an error answer. " +
+		"overlap: ONE provider serves 2-3 requests that overlap in time: the first is a request of the http family, the others are the identical message again, another request shape whose credential-like slots prefer the live material the first presents (the same code / refresh token / device code / access token at userinfo, introspection, revocation, token exchange / ID token hint / callback id), the same scenario again or any request; each request runs on its own goroutine with a tag in its context, its k-th storage call (k mostly 1..3) parks on entry or on exit, starts and releases follow a generated schedule; oracle: the per-request oracle for every answer (storage calls after an error answer counted per request through the tag), and every request answers once all gates are open. " +
 		"token: compact / JSON-serialised JWS (payload from a JSON grammar: null, non-objects, non-string aud members, huge / fractional / string times, nested act, invalid UTF-8, duplicates; hostile headers; valid / garbage / wrong-key signatures; mangled segments) and raw documents to rp.VerifyIDToken, rp.VerifyTokens, op.VerifyAccessToken, op.VerifyIDTokenHint, op.VerifyJWTAssertion, op.ParseRequestObject, oidc.ParseToken and json.Unmarshal into every claims / response type (T and **T); oracle: returns, no panic. " +
 		"client: in-process RoundTripper answers discovery / token / userinfo / introspection / JWKS / device / revoke / end-session with generated status x body (null, arrays, truncated, wrong member types, hostile URLs and ID tokens, read and transport errors) for 18 client helpers called with fixed arguments and for 4 helper chains in which every call takes its arguments from the response the previous helper returned, as the example clients do (device_flow: DeviceAuthorization -> DeviceAccessToken(device_code, interval) with a 25 ms context, token polls first answered authorization_pending / slow_down / ...; code_flow: CodeExchange -> Userinfo -> RefreshTokens -> Userinfo -> RevokeToken -> EndSession; cc_flow: ClientCredentials -> Userinfo -> rs.Introspect -> RevokeToken; refresh_flow: 3 x (RefreshTokens -> Userinfo)); in chains the feeding response is mostly the correct document reduced to a random subset of members and / or with zero / negative / huge / null members (so that it still decodes), the later endpoints and the discovery document answer with anything, an answer may apply only from the n-th request to its endpoint on; response headers are part of a generated answer (Location kept / absent / empty / relative / unparsable / other host / post-logout URI with the right, another or no state, on every redirect status and on every answer of end_session and revoke, now and then elsewhere; Content-Type variants, Content-Encoding, Retry-After, WWW-Authenticate ...); the arguments the caller hands to each helper (code, verifier, tokens, token types, subject, scopes, redirect URIs, state, hints, extra parameters, callback query, redirect URI and scopes of the RP) keep their fixed default every second time and are otherwise drawn from valid-UTF-8 pools that contain the empty value; oracle: returns, no panic. " +
 		"session: 2-6 calls on ONE long-lived client-side object while the answers of the provider change between the calls: a remote key set behind an ID token verifier (rp.NewRemoteKeySet with / without SkipRemoteCheck; calls VerifyIDToken / VerifyTokens / KeySet.VerifySignature), a RelyingParty from NewRelyingPartyOIDC (the same three calls through its IDTokenVerifier, CodeExchange, RefreshTokens, Userinfo, ClientCredentials, DeviceAuthorization, DeviceAccessToken with the device code and interval of the previous answer, RevokeToken, EndSession, CodeExchangeHandler; arguments generated as in the client family), a ResourceServer (Introspect), a JWT profile TokenSource (TokenCtx), a TokenExchanger (ExchangeToken). Per step the published JWKS is derived from the previous one (fresh / add front or back / drop to a sub-sequence / replace / empty / same kids other keys / duplicate kid / kids stripped / reordered / undecodable or unknown-kty member inserted / unchanged; keys of the committed pool under kids k1..k4 or none, alg and use present / absent / foreign, private JWK) and / or spoiled (null, keys null / object / string / missing, bare array, truncated, trailing data, duplicate member, empty body, HTML, huge, 60-fold repetition, non-200 with the document or an error document, transport / read error, odd content type); the other endpoints switch between the correct document, a sparse one and any generated answer. ID tokens (also the id_token of the token endpoint answers of that step) are mostly correct and signed by a key published at that step or at any other step (withdrawn, not yet published) or never, kid own / of another key / absent / unknown, other alg of the key, signature valid / garbage / empty / flipped / wrong key, now and then a hostile payload or header; one step in four presents the token of an earlier step again; oracle per call: returns, no panic (a crash of the download goroutine is reported with the case through Track). " +
-		"requests that net/http itself refuses are excluded (counted as http:rejected-by-net/http). non-trivial = input passes the first syntactic gate of its target (routed to a handler / three segments with base64url payload or valid JSON document / primary endpoint answered 200 with valid JSON / session: the object was constructed and at least two calls ran on it); distinct = (family, target, shape class, hash of the case)",
+		"requests that net/http itself refuses are excluded (counted as http:rejected-by-net/http). non-trivial = input passes the first syntactic gate of its target (routed to a handler / three segments with base64url payload or valid JSON document / primary endpoint answered 200 with valid JSON / session: the object was constructed and at least two calls ran on it / overlap: a routed request ran while another one was held inside a storage call); distinct = (family, target, shape class, hash of the case)",
 	Gen:   genCase,
 	Run:   run,
 	Track: true,
